@@ -192,7 +192,10 @@ def run(ctx):
                 tr.append(l)
         k = len(items)
         index[k] = (j, r, "cli")
-        items.append("(%d%%N, seq_ok %s %s true && %s)" % (k, g, coq_otrace(tr), vlib.cbool(not bad_tok and not r["timeout"] and not clilib.crashed(r))))
+        errs = vlib.clist([t in ("bad2", "pbad") for t in ran], vlib.cbool)
+        # the monitor too: it is the one that places `down` after everything else (seq_ok compares the trace without the downs)
+        items.append("(%d%%N, seq_ok %s %s true && ctx_mon %s %s %s true && %s)" % (
+            k, g, coq_otrace(tr), g, coq_otrace(tr), errs, vlib.cbool(not bad_tok and not r["timeout"] and not clilib.crashed(r))))
         res.nontrivial_keys.add(json.dumps([tg, j["form"]]))
     bad = set()
     for rc, o, start, cnt in vlib.coq_eval_sharded(ctx.workdir, "cases_c14", HEADER, items, lambda: FOOTER, shard=300):
